@@ -1,4 +1,4 @@
-From Tab Require Export Run.Glue Model.Csv Spec.CsvParse Proofs.CsvProofs.
+From Tab Require Export Run.Glue Model.Csv Model.CsvSession Spec.CsvParse Proofs.CsvProofs.
 
 Definition recs_eqb := list_eqb (list_eqb bytes_eqb).
 
@@ -21,3 +21,24 @@ Definition C05_case (c : view * res (list N)) : N :=
 Definition T (s : list N) : vcell := mkVCell s (match s with [] => true | _ => false end) None 0 0 false.
 
 Definition C05_model (c : view * res (list N)) : res (list N) := csv_render (fst c).
+
+(* A case is a SESSION: the tables as they stood at the moments they were
+   rendered (each distinct view shipped once), and the renders in the order
+   they happened, each naming its view and carrying what the implementation
+   returned.  Every render is judged on its own: the property oracle on the
+   implementation's bytes against that render's table, the correspondence
+   against the model's call with a buffer of its own (Model/CsvSession.v). *)
+Definition c05session := (list view * list (nat * res (list N)))%type.
+
+Definition C05s_each (f : view -> res (list N) -> bool) (c : c05session) : bool :=
+  let '(vs, steps) := c in
+  forallb (fun st : nat * res (list N) =>
+             match nth_error vs (fst st) with Some v => f v (snd st) | None => false end) steps.
+
+Definition C05s_case (c : c05session) : N :=
+  code (C05s_each (fun v obs => res_eqb bytes_eqb (csv_render_string v) obs) c)
+       (C05s_each C05_ok c).
+
+Definition C05s_model (c : c05session) : list (option (res (list N))) :=
+  let '(vs, steps) := c in
+  map (fun st : nat * res (list N) => option_map csv_render_string (nth_error vs (fst st))) steps.
